@@ -3,6 +3,7 @@
 #   runs the quick tier of the property's own check against every seeded change (scratch copy, never /repo) and
 #   writes seeded/<name>/detect.json {check, exit, subcheck}; prints one markdown table row per change.
 cd /verif
+S=${VERIF_SEED:-1}; OUT=detect.json; [ "$S" != "1" ] && OUT=detect-s$S.json
 L="$@"; [ -z "$L" ] && L=$(ls seeded | grep -v -e PROMPT -e RESULTS)
 for d in $L; do
   [ -f seeded/$d/patch.diff ] || continue
@@ -12,7 +13,7 @@ for d in $L; do
   VERIF_REPO=$D/repo ./check $P --no-evidence > $D/out 2>&1; rc=$?
   sub=$(grep -m1 -o '"subcheck": "[^"]*"' $D/out | cut -d'"' -f4)
   after=$(grep -m1 -o '"after_cases": [0-9]*' $D/out | grep -o '[0-9]*')
-  printf '{"check": "%s", "exit": %s, "subcheck": "%s", "after_cases": "%s"}\n' "$P" "$rc" "$sub" "$after" > seeded/$d/detect.json
+  printf '{"check": "%s", "seed": "%s", "exit": %s, "subcheck": "%s", "after_cases": "%s"}\n' "$P" "$S" "$rc" "$sub" "$after" > seeded/$d/$OUT
   what=$(python3 -c "import json;print(json.load(open('seeded/$d/meta.json')).get('summary','')[:150].replace('|','/'))" 2>/dev/null)
   echo "| $d | $P | $( [ $rc -eq 1 ] && echo "caught: $sub (shard's case #$after)" || echo "MISSED (exit $rc)" ) | $what |"
   rm -f replays/$P/viol-*; rm -rf $D
